@@ -191,7 +191,7 @@ fn program_case(sh: &mut Shard, t: &mut Tape) -> Result<(), Violation> {
     sh.eval();
     sh.nontrivial(hash64(&src));
     sh.class("program-level");
-    sh.sample_sparse(97, || json!({"program": src}));
+    sh.sample_sparse(251, || json!({"program": src}));
     run_program_case(&src, &expected)
 }
 
@@ -220,18 +220,1042 @@ fn run_program_case(src: &str, expected: &str) -> Result<(), Violation> {
     }
 }
 
+// ---------------------------------------------------------------------------------------------
+// Program level, byte-level memory model: PEEK/POKE through VARPTR/VARSEG on INTEGER variables and
+// INTEGER array elements that live at module level, in SUBs/FUNCTIONs (also STATIC ones), in
+// parameters (scalars by reference / by value, whole arrays) and in DIM SHARED variables reached
+// from a subprogram, interleaved with ordinary reads and writes; every scope ends with a dump of
+// every variable and every array element it can see.
+//
+// Oracle (from the statement): an INTEGER variable is a 16-bit two's-complement word, low byte
+// first; with DEF SEG = VARSEG(x), PEEK(VARPTR(x) + k) is byte k of x and POKE VARPTR(x) + k, b
+// replaces exactly that byte; nothing else changes. The model never predicts an address or a
+// segment value: both are always taken from VARPTR/VARSEG of the addressed variable itself.
+// Aliasing is excluded by construction (no variable is reachable under two names at once), so the
+// by-reference/copy-in-copy-out distinction is not observable.
+// ---------------------------------------------------------------------------------------------
+
+#[derive(Clone, Copy, PartialEq, Eq, Debug)]
+enum Ty {
+    Int,
+    Long,
+    Single,
+    Double,
+    Str,
+}
+
+impl Ty {
+    fn suffix(self) -> &'static str {
+        match self {
+            Ty::Int => "%",
+            Ty::Long => "&",
+            Ty::Single => "!",
+            Ty::Double => "#",
+            Ty::Str => "$",
+        }
+    }
+    fn word(self) -> &'static str {
+        match self {
+            Ty::Int => "INTEGER",
+            Ty::Long => "LONG",
+            Ty::Single => "SINGLE",
+            Ty::Double => "DOUBLE",
+            Ty::Str => "STRING",
+        }
+    }
+}
+
+#[derive(Clone, Debug, PartialEq)]
+enum Slot {
+    I([u8; 2]),
+    L(i32),
+    /// SINGLE/DOUBLE bystanders hold multiples of 0.5 (exact in both types, printed exactly)
+    F(i32),
+    S(String),
+}
+
+impl Slot {
+    fn default_of(ty: Ty) -> Slot {
+        match ty {
+            Ty::Int => Slot::I([0, 0]),
+            Ty::Long => Slot::L(0),
+            Ty::Single | Ty::Double => Slot::F(0),
+            Ty::Str => Slot::S(String::new()),
+        }
+    }
+    fn int(&self) -> i32 {
+        match self {
+            Slot::I(b) => i16::from_le_bytes(*b) as i32,
+            _ => unreachable!("INTEGER cell expected"),
+        }
+    }
+    /// text PRINT produces for the value as one item of a `;` list
+    fn printed(&self) -> String {
+        match self {
+            Slot::I(b) => num_item(i16::from_le_bytes(*b) as i64),
+            Slot::L(v) => num_item(*v as i64),
+            Slot::F(h) => {
+                if h % 2 == 0 {
+                    num_item((*h / 2) as i64)
+                } else {
+                    let whole = h.abs() / 2;
+                    format!("{}{}.5 ", if *h < 0 { "-" } else { " " }, whole)
+                }
+            }
+            Slot::S(s) => s.clone(),
+        }
+    }
+    /// literal that assigns the value
+    fn literal(&self) -> String {
+        match self {
+            Slot::I(b) => lit(i16::from_le_bytes(*b) as i32),
+            Slot::L(v) => v.to_string(),
+            Slot::F(h) => {
+                if h % 2 == 0 {
+                    (h / 2).to_string()
+                } else {
+                    format!("{}{}.5", if *h < 0 { "-" } else { "" }, h.abs() / 2)
+                }
+            }
+            Slot::S(s) => format!("\"{}\"", s),
+        }
+    }
+}
+
+fn num_item(i: i64) -> String {
+    if i < 0 { format!("{} ", i) } else { format!(" {} ", i) }
+}
+
+#[derive(Clone, Copy, Debug, PartialEq, Eq)]
+enum Home {
+    Local,
+    Param,
+    /// view of the module-level DIM SHARED variable with this index
+    SharedView(usize),
+}
+
+#[derive(Clone, Debug)]
+struct MVar {
+    /// spelling at every use (with the type suffix when the variable is declared by suffix)
+    name: String,
+    ty: Ty,
+    /// empty = scalar, else (lower, upper) per dimension
+    dims: Vec<(i32, i32)>,
+    /// declaration statement; empty = implicit scalar or parameter
+    decl: String,
+    /// declared with DIM SHARED at module level (never passed as an argument: it would alias)
+    shared: bool,
+    home: Home,
+}
+
+impl MVar {
+    fn len(&self) -> usize {
+        self.dims.iter().map(|(lo, hi)| (hi - lo + 1) as usize).product::<usize>().max(1)
+    }
+    fn is_array(&self) -> bool {
+        !self.dims.is_empty()
+    }
+    /// element text for the flat (row-major) element number
+    fn elem(&self, flat: usize) -> String {
+        if self.dims.is_empty() {
+            return self.name.clone();
+        }
+        let mut idx = vec![0i32; self.dims.len()];
+        let mut rest = flat;
+        for d in (0..self.dims.len()).rev() {
+            let n = (self.dims[d].1 - self.dims[d].0 + 1) as usize;
+            idx[d] = self.dims[d].0 + (rest % n) as i32;
+            rest /= n;
+        }
+        format!("{}({})", self.name, idx.iter().map(|i| i.to_string()).collect::<Vec<_>>().join(", "))
+    }
+}
+
+#[derive(Clone, Copy, Debug, PartialEq, Eq)]
+struct Tgt {
+    var: usize,
+    flat: usize,
+}
+
+#[derive(Clone, Debug)]
+enum Opnd {
+    T(Tgt),
+    Lit(i32),
+}
+
+#[derive(Clone, Debug)]
+enum Arg {
+    /// INTEGER scalar or array element passed by reference
+    Ref(Tgt),
+    /// parenthesised: passed by value
+    Val(Tgt),
+    Lit(i32),
+    /// whole array `name()`
+    Array(usize),
+}
+
+#[derive(Clone, Debug)]
+enum MOp {
+    Set(Tgt, i32),
+    SetOther(Tgt, Slot),
+    Show(Tgt),
+    /// which: 0 low byte, 1 high byte, 2 both; ptr: through ZS&/ZP& instead of inline VARSEG/VARPTR
+    Peek { t: Tgt, which: u8, ptr: bool, reset: bool },
+    Poke { t: Tgt, which: u8, b: [u8; 2], ptr: bool, reset: bool },
+    /// POKE a, f(PEEK(a)) with f built from AND / OR / NOT
+    PokeExpr { t: Tgt, k: u8, form: u8, m: u8 },
+    /// byte-wise copy of one INTEGER into another (to bytes and back is the identity)
+    Copy { s: Tgt, d: Tgt },
+    /// op 0 AND, 1 OR, 2 NOT (b unused)
+    Bit { d: Tgt, op: u8, a: Opnd, b: Opnd },
+    Call { callee: usize, args: Vec<Arg>, form: u8, dst: Option<Tgt> },
+}
+
+#[derive(Clone, Debug)]
+struct MScope {
+    /// 0 module, 1 SUB, 2 FUNCTION
+    kind: u8,
+    name: String,
+    is_static: bool,
+    /// procedures: parameters first, then locals, then views of the shared module variables
+    vars: Vec<MVar>,
+    nparams: usize,
+    ops: Vec<MOp>,
+    ret: Option<Opnd>,
+}
+
+impl MScope {
+    fn int_vars(&self) -> Vec<usize> {
+        (0..self.vars.len()).filter(|i| self.vars[*i].ty == Ty::Int).collect()
+    }
+    fn scope_tag(&self) -> &'static str {
+        match (self.kind, self.is_static) {
+            (0, _) => "module",
+            (1, false) => "sub",
+            (1, true) => "static-sub",
+            (_, false) => "function",
+            (_, true) => "static-function",
+        }
+    }
+    /// coarse location for signatures: one root cause should not fan out into many signatures
+    fn coarse(&self, t: Tgt) -> String {
+        let v = &self.vars[t.var];
+        let place = match (self.kind, v.home) {
+            (0, _) => "module",
+            (_, Home::SharedView(_)) => "procedure-shared",
+            _ => "procedure",
+        };
+        format!("{}.{}", place, if v.is_array() { "array" } else { "scalar" })
+    }
+    fn op_tag(&self, op: &MOp) -> String {
+        match op {
+            MOp::Set(t, _) => format!("assign:{}", self.coarse(*t)),
+            MOp::SetOther(..) => "assign-other".to_string(),
+            MOp::Show(t) => format!("show:{}", self.coarse(*t)),
+            MOp::Peek { t, .. } => format!("peek:{}", self.coarse(*t)),
+            MOp::Poke { t, .. } | MOp::PokeExpr { t, .. } => format!("poke:{}", self.coarse(*t)),
+            MOp::Copy { d, .. } => format!("poke:{}", self.coarse(*d)),
+            MOp::Bit { d, .. } => format!("bitop:{}", self.coarse(*d)),
+            MOp::Call { .. } => "call".to_string(),
+        }
+    }
+    fn tgt_tag(&self, t: Tgt) -> String {
+        let v = &self.vars[t.var];
+        let home = match v.home {
+            Home::Local if v.shared => "shared",
+            Home::Local => "local",
+            Home::Param => "param",
+            Home::SharedView(_) => "shared",
+        };
+        format!("{}.{}.{}", self.scope_tag(), home, if v.is_array() { if v.dims.len() > 1 { "array2d" } else { "array" } } else { "scalar" })
+    }
+}
+
+fn gen_word(t: &mut Tape, ints: &[i32]) -> i32 {
+    match t.choose(3) {
+        0 => t.range(0, 300) as i32,
+        1 => *t.pick(ints),
+        _ => t.range(-32768, 32767) as i32,
+    }
+}
+
+fn gen_byte(t: &mut Tape) -> u8 {
+    match t.choose(3) {
+        0 => *t.pick(&[0u8, 1, 127, 128, 255, 254, 129, 2, 64, 192]),
+        _ => t.range(0, 255) as u8,
+    }
+}
+
+fn gen_dims(t: &mut Tape) -> Vec<(i32, i32)> {
+    let two = t.chance(1, 6);
+    let mut dims = Vec::new();
+    let nd = if two { 2 } else { 1 };
+    for _ in 0..nd {
+        let lo = *t.pick(&[1i32, 0, 1, 0, -1, 5]);
+        let len = if two { t.range(1, 2) } else { t.range(1, 4) } as i32;
+        dims.push((lo, lo + len - 1));
+    }
+    dims
+}
+
+fn dims_text(t: &mut Tape, dims: &[(i32, i32)]) -> String {
+    let parts: Vec<String> = dims
+        .iter()
+        .map(|(lo, hi)| if *lo == 0 && t.chance(1, 2) { format!("{}", hi) } else { format!("{} TO {}", lo, hi) })
+        .collect();
+    format!("({})", parts.join(", "))
+}
+
+/// A declared variable; `base` has no suffix.
+fn gen_var(t: &mut Tape, base: &str, ty: Ty, dims: Vec<(i32, i32)>, shared: bool) -> MVar {
+    let dims_s = if dims.is_empty() { String::new() } else { dims_text(t, &dims) };
+    let sh = if shared { "SHARED " } else { "" };
+    let (name, decl) = match t.choose(3) {
+        0 => (base.to_string(), format!("DIM {}{}{} AS {}", sh, base, dims_s, ty.word())),
+        1 => (format!("{}{}", base, ty.suffix()), format!("DIM {}{}{}{}", sh, base, ty.suffix(), dims_s)),
+        _ => {
+            if dims.is_empty() && !shared {
+                // implicit: created by its first assignment
+                (format!("{}{}", base, ty.suffix()), String::new())
+            } else {
+                (format!("{}{}", base, ty.suffix()), format!("DIM {}{}{}{}", sh, base, ty.suffix(), dims_s))
+            }
+        }
+    };
+    MVar { name, ty, dims, decl, shared, home: Home::Local }
+}
+
+fn gen_other_ty(t: &mut Tape, allow_str: bool) -> Ty {
+    match t.choose(if allow_str { 4 } else { 3 }) {
+        0 => Ty::Long,
+        1 => Ty::Double,
+        2 => Ty::Single,
+        _ => Ty::Str,
+    }
+}
+
+fn gen_other_value(t: &mut Tape, ty: Ty) -> Slot {
+    match ty {
+        Ty::Long => Slot::L(t.range(-100_000, 100_000) as i32),
+        Ty::Single | Ty::Double => {
+            let mag = t.range(2, 4000) as i32;
+            Slot::F(if t.chance(1, 2) { -mag } else { mag })
+        }
+        Ty::Str => Slot::S(t.pick(&["", "a", "xyz", "hello", "QB 4.5", "0123456789"]).to_string()),
+        Ty::Int => unreachable!(),
+    }
+}
+
+/// Locals of one scope in a random order (the order decides the memory layout).
+/// `ni`/`na`: INTEGER scalars / arrays, `no`/`noa`: bystander scalars / arrays of other types.
+fn gen_locals(t: &mut Tape, ni: usize, na: usize, no: usize, noa: usize, shared_prob: u32) -> Vec<MVar> {
+    let mut kinds: Vec<u8> = Vec::new();
+    kinds.extend(std::iter::repeat(0u8).take(ni));
+    kinds.extend(std::iter::repeat(1u8).take(na));
+    kinds.extend(std::iter::repeat(2u8).take(no));
+    kinds.extend(std::iter::repeat(3u8).take(noa));
+    // Fisher-Yates driven by the tape (identity for an exhausted tape)
+    for i in (1..kinds.len()).rev() {
+        let j = i - t.choose(i + 1);
+        kinds.swap(i, j);
+    }
+    let mut out = Vec::new();
+    let mut counter = [0usize; 4];
+    for k in kinds {
+        counter[k as usize] += 1;
+        let n = counter[k as usize];
+        let shared = shared_prob > 0 && t.chance(shared_prob, 8);
+        let g = if shared { "G" } else { "" };
+        let v = match k {
+            0 => gen_var(t, &format!("{}V{}", g, n), Ty::Int, vec![], shared),
+            1 => {
+                let d = gen_dims(t);
+                gen_var(t, &format!("{}A{}", g, n), Ty::Int, d, shared)
+            }
+            2 => {
+                let ty = gen_other_ty(t, true);
+                gen_var(t, &format!("{}B{}", g, n), ty, vec![], shared)
+            }
+            _ => {
+                let ty = gen_other_ty(t, false);
+                let d = gen_dims(t);
+                gen_var(t, &format!("{}C{}", g, n), ty, d, shared)
+            }
+        };
+        out.push(v);
+    }
+    out
+}
+
+fn pick_int_tgt(t: &mut Tape, sc: &MScope) -> Option<Tgt> {
+    let ints = sc.int_vars();
+    if ints.is_empty() {
+        return None;
+    }
+    let arrays: Vec<usize> = ints.iter().cloned().filter(|i| sc.vars[*i].is_array()).collect();
+    let var = if !arrays.is_empty() && t.chance(1, 2) { *t.pick(&arrays) } else { *t.pick(&ints) };
+    let flat = t.choose(sc.vars[var].len());
+    Some(Tgt { var, flat })
+}
+
+fn gen_plain_op(t: &mut Tape, sc: &MScope, ints: &[i32]) -> Option<MOp> {
+    let tg = pick_int_tgt(t, sc)?;
+    Some(match t.choose(14) {
+        0 => MOp::Show(tg),
+        1 | 2 | 3 => MOp::Peek { t: tg, which: *t.pick(&[2u8, 0, 1]), ptr: t.chance(1, 4), reset: t.chance(1, 4) },
+        4 | 5 | 6 | 7 => MOp::Poke { t: tg, which: *t.pick(&[2u8, 0, 1, 1]), b: [gen_byte(t), gen_byte(t)], ptr: t.chance(1, 4), reset: t.chance(1, 4) },
+        8 => MOp::PokeExpr { t: tg, k: t.choose(2) as u8, form: t.choose(4) as u8, m: gen_byte(t) },
+        9 => {
+            let d = pick_int_tgt(t, sc)?;
+            MOp::Copy { s: tg, d }
+        }
+        10 | 11 => MOp::Set(tg, gen_word(t, ints)),
+        12 => {
+            let a = if t.chance(1, 2) { Opnd::Lit(gen_word(t, ints)) } else { Opnd::T(pick_int_tgt(t, sc)?) };
+            let b = if t.chance(1, 2) { Opnd::Lit(gen_word(t, ints)) } else { Opnd::T(pick_int_tgt(t, sc)?) };
+            MOp::Bit { d: tg, op: t.choose(3) as u8, a, b }
+        }
+        _ => {
+            let others: Vec<usize> = (0..sc.vars.len()).filter(|i| sc.vars[*i].ty != Ty::Int).collect();
+            if others.is_empty() {
+                MOp::Show(tg)
+            } else {
+                let var = *t.pick(&others);
+                let flat = t.choose(sc.vars[var].len());
+                MOp::SetOther(Tgt { var, flat }, gen_other_value(t, sc.vars[var].ty))
+            }
+        }
+    })
+}
+
+/// Arguments for a call of `callee` from `caller`; None when the caller has no fitting array.
+fn gen_call(t: &mut Tape, caller: &MScope, callee: &MScope, callee_idx: usize, ints: &[i32]) -> Option<MOp> {
+    let mut used: Vec<usize> = Vec::new();
+    let mut args: Vec<Option<Arg>> = vec![None; callee.nparams];
+    // whole arrays first (fitting arrays are scarce), then the scalars from what is left
+    for p in 0..callee.nparams {
+        let pv = &callee.vars[p];
+        if !pv.is_array() {
+            continue;
+        }
+        let cands: Vec<usize> = (0..caller.vars.len())
+            .filter(|i| {
+                let v = &caller.vars[*i];
+                v.ty == Ty::Int && v.dims == pv.dims && !v.shared && !used.contains(i)
+            })
+            .collect();
+        if cands.is_empty() {
+            return None;
+        }
+        let v = *t.pick(&cands);
+        used.push(v);
+        args[p] = Some(Arg::Array(v));
+    }
+    for p in 0..callee.nparams {
+        if callee.vars[p].is_array() {
+            continue;
+        }
+        let refs: Vec<usize> = caller.int_vars().into_iter().filter(|i| !caller.vars[*i].shared && !used.contains(i)).collect();
+        let all = caller.int_vars();
+        args[p] = Some(match t.choose(4) {
+            0 => Arg::Lit(gen_word(t, ints)),
+            1 if !all.is_empty() => {
+                let var = *t.pick(&all);
+                let flat = t.choose(caller.vars[var].len());
+                Arg::Val(Tgt { var, flat })
+            }
+            _ if !refs.is_empty() => {
+                let var = *t.pick(&refs);
+                let flat = t.choose(caller.vars[var].len());
+                used.push(var);
+                Arg::Ref(Tgt { var, flat })
+            }
+            _ => Arg::Lit(gen_word(t, ints)),
+        });
+    }
+    let args: Vec<Arg> = args.into_iter().map(|a| a.expect("every parameter got an argument")).collect();
+    let form = t.choose(2) as u8;
+    let mut dst = None;
+    if callee.kind == 2 && form == 1 {
+        let free: Vec<usize> = caller.int_vars().into_iter().filter(|i| !used.contains(i)).collect();
+        if !free.is_empty() {
+            let var = *t.pick(&free);
+            dst = Some(Tgt { var, flat: t.choose(caller.vars[var].len()) });
+        }
+    }
+    Some(MOp::Call { callee: callee_idx, args, form, dst })
+}
+
+struct MemProgram {
+    /// scopes[0] is the module
+    scopes: Vec<MScope>,
+    declares: bool,
+}
+
+fn gen_mem_program(t: &mut Tape) -> MemProgram {
+    let ints = int_set();
+    let nprocs = *t.pick(&[1usize, 2, 1, 2, 2, 0]);
+    // module-level variables
+    let ni = t.range(1, 3) as usize;
+    let na = t.range(1, 3) as usize;
+    let no = t.range(0, 2) as usize;
+    let noa = t.range(0, 1) as usize;
+    let module_vars = gen_locals(t, ni, na, no, noa, if nprocs > 0 { 3 } else { 0 });
+    let mut scopes = vec![MScope { kind: 0, name: String::new(), is_static: false, vars: module_vars, nparams: 0, ops: vec![], ret: None }];
+    // procedures
+    for p in 0..nprocs {
+        let kind = if t.chance(1, 2) { 2u8 } else { 1u8 };
+        let letter = ["A", "B"][p];
+        let name = if kind == 1 { format!("P{}", letter) } else { format!("F{}%", letter) };
+        let is_static = t.chance(1, 3);
+        let mut vars: Vec<MVar> = Vec::new();
+        // parameters: whole arrays shaped like a non-shared module array, INTEGER scalars
+        let module_arrays: Vec<usize> = (0..scopes[0].vars.len())
+            .filter(|i| {
+                let v = &scopes[0].vars[*i];
+                v.ty == Ty::Int && v.is_array() && !v.shared
+            })
+            .collect();
+        let mut kinds: Vec<u8> = Vec::new();
+        if !module_arrays.is_empty() && t.chance(1, 2) {
+            kinds.push(1);
+        }
+        for _ in 0..t.choose(3) {
+            kinds.push(0);
+        }
+        if kinds.len() > 1 && t.chance(1, 2) {
+            kinds.reverse();
+        }
+        let mut nq = 0;
+        for k in kinds {
+            if k == 1 {
+                let dims = scopes[0].vars[*t.pick(&module_arrays)].dims.clone();
+                let (name, decl) = if t.chance(1, 2) { ("R1".to_string(), "R1() AS INTEGER".to_string()) } else { ("R1%".to_string(), "R1%()".to_string()) };
+                vars.push(MVar { name, ty: Ty::Int, dims, decl, shared: false, home: Home::Param });
+            } else {
+                nq += 1;
+                let (name, decl) = if t.chance(1, 2) { (format!("Q{}", nq), format!("Q{} AS INTEGER", nq)) } else { (format!("Q{}%", nq), format!("Q{}%", nq)) };
+                vars.push(MVar { name, ty: Ty::Int, dims: vec![], decl, shared: false, home: Home::Param });
+            }
+        }
+        let nparams = vars.len();
+        let ni = t.range(0, 2) as usize;
+        let na = *t.pick(&[1usize, 2, 0, 1, 2, 3]);
+        let no = t.range(0, 1) as usize;
+        let noa = t.range(0, 1) as usize;
+        vars.extend(gen_locals(t, ni, na, no, noa, 0));
+        for (i, v) in scopes[0].vars.iter().enumerate() {
+            if v.shared {
+                let mut view = v.clone();
+                view.decl = String::new();
+                view.home = Home::SharedView(i);
+                vars.push(view);
+            }
+        }
+        scopes.push(MScope { kind, name, is_static, vars, nparams, ops: vec![], ret: None });
+    }
+    // bodies: initialisation (always for implicit scalars), then operations
+    let mut ninit: Vec<usize> = Vec::new();
+    for si in 0..scopes.len() {
+        let mut ops = Vec::new();
+        for vi in 0..scopes[si].vars.len() {
+            let v = scopes[si].vars[vi].clone();
+            if v.home != Home::Local {
+                continue;
+            }
+            let implicit = v.decl.is_empty();
+            for flat in 0..v.len() {
+                if implicit || t.chance(1, 3) {
+                    let tg = Tgt { var: vi, flat };
+                    ops.push(if v.ty == Ty::Int { MOp::Set(tg, gen_word(t, &ints)) } else { MOp::SetOther(tg, gen_other_value(t, v.ty)) });
+                }
+            }
+        }
+        ninit.push(ops.len());
+        let n = if si == 0 { t.range(4, 9) } else { t.range(2, 6) } as usize;
+        for _ in 0..n {
+            if let Some(op) = gen_plain_op(t, &scopes[si], &ints) {
+                ops.push(op);
+            }
+        }
+        scopes[si].ops = ops;
+        if scopes[si].kind == 2 {
+            scopes[si].ret = Some(match pick_int_tgt(t, &scopes[si]) {
+                Some(tg) if t.chance(3, 4) => Opnd::T(tg),
+                _ => Opnd::Lit(gen_word(t, &ints)),
+            });
+        }
+    }
+    // calls: the module calls every procedure once or twice, the first procedure may call the second
+    let mut plan: Vec<(usize, usize)> = Vec::new();
+    if scopes.len() > 2 && t.chance(1, 2) {
+        plan.push((1, 2));
+    }
+    for p in 1..scopes.len() {
+        let times = if t.chance(1, 2) { 2 } else { 1 };
+        for _ in 0..times {
+            plan.push((0, p));
+        }
+    }
+    for (from, to) in plan {
+        if let Some(call) = gen_call(t, &scopes[from], &scopes[to], to, &ints) {
+            // after the initialisation part (implicit scalars exist from there on)
+            let first = ninit[from];
+            let at = first + t.choose(scopes[from].ops.len() - first + 1);
+            scopes[from].ops.insert(at, call);
+        }
+    }
+    MemProgram { scopes, declares: t.chance(1, 2) }
+}
+
+fn opnd_text(sc: &MScope, o: &Opnd) -> String {
+    match o {
+        Opnd::T(tg) => sc.vars[tg.var].elem(tg.flat),
+        Opnd::Lit(i) => lit(*i),
+    }
+}
+
+fn render_op(scopes: &[MScope], sc: &MScope, op: &MOp, out: &mut String) {
+    let el = |tg: &Tgt| sc.vars[tg.var].elem(tg.flat);
+    match op {
+        MOp::Set(tg, v) => out.push_str(&format!("{} = {}\n", el(tg), lit(*v))),
+        MOp::SetOther(tg, s) => out.push_str(&format!("{} = {}\n", el(tg), s.literal())),
+        MOp::Show(tg) => out.push_str(&format!("PRINT {}\n", el(tg))),
+        MOp::Peek { t: tg, which, ptr, reset } => {
+            let x = el(tg);
+            let (seg, p) = if *ptr {
+                out.push_str(&format!("ZS& = VARSEG({x}): ZP& = VARPTR({x})\n"));
+                ("ZS&".to_string(), "ZP&".to_string())
+            } else {
+                (format!("VARSEG({x})"), format!("VARPTR({x})"))
+            };
+            out.push_str(&format!("DEF SEG = {seg}\n"));
+            match which {
+                0 => out.push_str(&format!("PRINT PEEK({p})\n")),
+                1 => out.push_str(&format!("PRINT PEEK({p} + 1)\n")),
+                _ => out.push_str(&format!("PRINT PEEK({p}); PEEK({p} + 1)\n")),
+            }
+            if *reset {
+                out.push_str("DEF SEG\n");
+            }
+        }
+        MOp::Poke { t: tg, which, b, ptr, reset } => {
+            let x = el(tg);
+            let (seg, p) = if *ptr {
+                out.push_str(&format!("ZS& = VARSEG({x}): ZP& = VARPTR({x})\n"));
+                ("ZS&".to_string(), "ZP&".to_string())
+            } else {
+                (format!("VARSEG({x})"), format!("VARPTR({x})"))
+            };
+            out.push_str(&format!("DEF SEG = {seg}\n"));
+            if *which == 0 || *which == 2 {
+                out.push_str(&format!("POKE {p}, {}\n", b[0]));
+            }
+            if *which == 1 || *which == 2 {
+                out.push_str(&format!("POKE {p} + 1, {}\n", b[1]));
+            }
+            if *reset {
+                out.push_str("DEF SEG\n");
+            }
+        }
+        MOp::PokeExpr { t: tg, k, form, m } => {
+            let x = el(tg);
+            let a = if *k == 0 { format!("VARPTR({x})") } else { format!("VARPTR({x}) + 1") };
+            let e = match form {
+                0 => format!("PEEK({a}) AND {m}"),
+                1 => format!("PEEK({a}) OR {m}"),
+                2 => format!("(NOT PEEK({a})) AND 255"),
+                _ => format!("255 - PEEK({a})"),
+            };
+            out.push_str(&format!("DEF SEG = VARSEG({x}): POKE {a}, {e}\n"));
+        }
+        MOp::Copy { s, d } => {
+            let (x, y) = (el(s), el(d));
+            out.push_str(&format!("DEF SEG = VARSEG({x}): ZL& = PEEK(VARPTR({x})): ZH& = PEEK(VARPTR({x}) + 1)\n"));
+            out.push_str(&format!("DEF SEG = VARSEG({y}): POKE VARPTR({y}), ZL&: POKE VARPTR({y}) + 1, ZH&\n"));
+        }
+        MOp::Bit { d, op, a, b } => match op {
+            0 => out.push_str(&format!("{} = {} AND {}\n", el(d), opnd_text(sc, a), opnd_text(sc, b))),
+            1 => out.push_str(&format!("{} = {} OR {}\n", el(d), opnd_text(sc, a), opnd_text(sc, b))),
+            _ => out.push_str(&format!("{} = NOT {}\n", el(d), opnd_text(sc, a))),
+        },
+        MOp::Call { callee, args, form, dst } => {
+            let cs = &scopes[*callee];
+            let a: Vec<String> = args
+                .iter()
+                .map(|a| match a {
+                    Arg::Ref(tg) => el(tg),
+                    Arg::Val(tg) => format!("({})", el(tg)),
+                    Arg::Lit(i) => lit(*i),
+                    Arg::Array(v) => format!("{}()", sc.vars[*v].name),
+                })
+                .collect();
+            let list = a.join(", ");
+            if cs.kind == 1 {
+                match (form, a.is_empty()) {
+                    (0, true) => out.push_str(&format!("{}\n", cs.name)),
+                    (0, false) => out.push_str(&format!("{} {}\n", cs.name, list)),
+                    (_, true) => out.push_str(&format!("CALL {}\n", cs.name)),
+                    (_, false) => out.push_str(&format!("CALL {}({})\n", cs.name, list)),
+                }
+            } else {
+                let call = if a.is_empty() { cs.name.clone() } else { format!("{}({})", cs.name, list) };
+                match dst {
+                    Some(d) => out.push_str(&format!("{} = {}\n", el(d), call)),
+                    None => out.push_str(&format!("PRINT {}\n", call)),
+                }
+            }
+        }
+    }
+}
+
+fn render_dump(sc: &MScope, out: &mut String) {
+    let label = if sc.kind == 0 { "M".to_string() } else { sc.name.trim_end_matches('%').to_string() };
+    for v in &sc.vars {
+        let items: Vec<String> = (0..v.len()).map(|f| v.elem(f)).collect();
+        out.push_str(&format!("PRINT \"{}.{}=\"; {}\n", label, v.name, items.join("; ")));
+    }
+}
+
+/// Program text and one tag per source row (what the statement on that row does).
+fn render_mem_program(p: &MemProgram) -> (String, Vec<String>) {
+    let mut out = String::new();
+    let mut rows: Vec<String> = Vec::new();
+    fn fill(out: &str, rows: &mut Vec<String>, tag: &str) {
+        let n = out.matches('\n').count();
+        while rows.len() < n {
+            rows.push(tag.to_string());
+        }
+    }
+    let header = |sc: &MScope| -> String {
+        let params: Vec<String> = sc.vars[..sc.nparams].iter().map(|v| v.decl.clone()).collect();
+        let kw = if sc.kind == 1 { "SUB" } else { "FUNCTION" };
+        if params.is_empty() { format!("{} {}", kw, sc.name) } else { format!("{} {} ({})", kw, sc.name, params.join(", ")) }
+    };
+    if p.declares {
+        for sc in &p.scopes[1..] {
+            let h = header(sc);
+            out.push_str(&format!("DECLARE {}{}\n", h, if sc.nparams == 0 { " ()" } else { "" }));
+        }
+    }
+    for (si, sc) in p.scopes.iter().enumerate() {
+        if si > 0 {
+            out.push_str(&format!("{}{}\n", header(sc), if sc.is_static { " STATIC" } else { "" }));
+        }
+        for v in &sc.vars {
+            if v.home == Home::Local && !v.decl.is_empty() {
+                out.push_str(&v.decl);
+                out.push('\n');
+            }
+        }
+        fill(&out, &mut rows, "declaration");
+        for op in &sc.ops {
+            render_op(&p.scopes, sc, op, &mut out);
+            if let MOp::Copy { s, d } = op {
+                // two rows: the reading half and the writing half
+                let n = out.matches('\n').count();
+                while rows.len() + 1 < n {
+                    rows.push(format!("peek:{}", sc.coarse(*s)));
+                }
+                rows.push(format!("poke:{}", sc.coarse(*d)));
+            }
+            fill(&out, &mut rows, &sc.op_tag(op));
+        }
+        render_dump(sc, &mut out);
+        fill(&out, &mut rows, "dump");
+        if si == 0 {
+            out.push_str("END\n");
+        } else {
+            if let Some(r) = &sc.ret {
+                out.push_str(&format!("{} = {}\n", sc.name, opnd_text(sc, r)));
+            }
+            out.push_str(if sc.kind == 1 { "END SUB\n" } else { "END FUNCTION\n" });
+        }
+        fill(&out, &mut rows, "end");
+    }
+    (out, rows)
+}
+
+/// The byte-level model: objects (a scalar or a whole array) hold cells; a frame maps every
+/// variable visible in a scope to (object, offset).
+struct MemSim<'a> {
+    scopes: &'a [MScope],
+    arena: Vec<Vec<Slot>>,
+    module_frame: Vec<(usize, usize)>,
+    /// persistent locals of STATIC procedures (index = scope)
+    statics: Vec<Option<Vec<(usize, usize)>>>,
+    out: String,
+    /// one tag per output line
+    tags: Vec<String>,
+    /// executed operation classes
+    classes: Vec<String>,
+}
+
+impl<'a> MemSim<'a> {
+    fn alloc(&mut self, v: &MVar) -> (usize, usize) {
+        self.arena.push(vec![Slot::default_of(v.ty); v.len()]);
+        (self.arena.len() - 1, 0)
+    }
+    fn cell(&mut self, frame: &[(usize, usize)], tg: &Tgt) -> &mut Slot {
+        let (o, off) = frame[tg.var];
+        &mut self.arena[o][off + tg.flat]
+    }
+    fn bytes(&mut self, frame: &[(usize, usize)], tg: &Tgt) -> [u8; 2] {
+        match self.cell(frame, tg) {
+            Slot::I(b) => *b,
+            _ => unreachable!("INTEGER cell expected"),
+        }
+    }
+    fn set_int(&mut self, frame: &[(usize, usize)], tg: &Tgt, v: i32) {
+        *self.cell(frame, tg) = Slot::I((v as i16).to_le_bytes());
+    }
+    fn opnd(&mut self, frame: &[(usize, usize)], o: &Opnd) -> i32 {
+        match o {
+            Opnd::T(tg) => self.cell(frame, tg).int(),
+            Opnd::Lit(i) => *i,
+        }
+    }
+    fn line(&mut self, text: String, tag: String) {
+        self.out.push_str(&text);
+        self.out.push_str("\r\n");
+        self.tags.push(tag);
+    }
+    fn run_scope(&mut self, si: usize, frame: &[(usize, usize)]) -> Option<i32> {
+        let sc = &self.scopes[si];
+        for op in &sc.ops {
+            match op {
+                MOp::Set(tg, v) => self.set_int(frame, tg, *v),
+                MOp::SetOther(tg, s) => *self.cell(frame, tg) = s.clone(),
+                MOp::Show(tg) => {
+                    let s = self.cell(frame, tg).printed();
+                    self.line(s, format!("show:{}", sc.coarse(*tg)));
+                }
+                MOp::Peek { t: tg, which, .. } => {
+                    let b = self.bytes(frame, tg);
+                    let s = match which {
+                        0 => num_item(b[0] as i64),
+                        1 => num_item(b[1] as i64),
+                        _ => format!("{}{}", num_item(b[0] as i64), num_item(b[1] as i64)),
+                    };
+                    self.classes.push(format!("mem-peek:{}", sc.tgt_tag(*tg)));
+                    self.line(s, format!("peek:{}", sc.coarse(*tg)));
+                }
+                MOp::Poke { t: tg, which, b, .. } => {
+                    let mut cur = self.bytes(frame, tg);
+                    if *which == 0 || *which == 2 {
+                        cur[0] = b[0];
+                    }
+                    if *which == 1 || *which == 2 {
+                        cur[1] = b[1];
+                    }
+                    *self.cell(frame, tg) = Slot::I(cur);
+                    self.classes.push(format!("mem-poke:{}", sc.tgt_tag(*tg)));
+                    if cur[1] >= 128 {
+                        self.classes.push("mem-poke:sign-bit-set".to_string());
+                    }
+                }
+                MOp::PokeExpr { t: tg, k, form, m } => {
+                    let mut cur = self.bytes(frame, tg);
+                    let old = cur[*k as usize];
+                    cur[*k as usize] = match form {
+                        0 => old & m,
+                        1 => old | m,
+                        _ => !old,
+                    };
+                    *self.cell(frame, tg) = Slot::I(cur);
+                    self.classes.push(format!("mem-poke:{}", sc.tgt_tag(*tg)));
+                }
+                MOp::Copy { s, d } => {
+                    let b = self.bytes(frame, s);
+                    *self.cell(frame, d) = Slot::I(b);
+                    self.classes.push(format!("mem-poke:{}", sc.tgt_tag(*d)));
+                    self.classes.push(format!("mem-peek:{}", sc.tgt_tag(*s)));
+                }
+                MOp::Bit { d, op, a, b } => {
+                    let x = self.opnd(frame, a) as i16;
+                    let y = self.opnd(frame, b) as i16;
+                    let r = match op {
+                        0 => x & y,
+                        1 => x | y,
+                        _ => !x,
+                    };
+                    self.set_int(frame, d, r as i32);
+                }
+                MOp::Call { callee, args, dst, .. } => {
+                    let cs = &self.scopes[*callee];
+                    let mut cf: Vec<(usize, usize)> = Vec::new();
+                    for (pi, a) in args.iter().enumerate() {
+                        match a {
+                            Arg::Ref(tg) => {
+                                let (o, off) = frame[tg.var];
+                                cf.push((o, off + tg.flat));
+                            }
+                            Arg::Val(tg) => {
+                                let v = self.cell(frame, tg).clone();
+                                self.arena.push(vec![v]);
+                                cf.push((self.arena.len() - 1, 0));
+                            }
+                            Arg::Lit(i) => {
+                                self.arena.push(vec![Slot::I((*i as i16).to_le_bytes())]);
+                                cf.push((self.arena.len() - 1, 0));
+                            }
+                            Arg::Array(v) => cf.push(frame[*v]),
+                        }
+                        let _ = pi;
+                    }
+                    let locals: Vec<(usize, usize)> = match (&self.statics[*callee], cs.is_static) {
+                        (Some(l), true) => l.clone(),
+                        _ => {
+                            let l: Vec<(usize, usize)> = cs.vars[cs.nparams..].iter().filter(|v| v.home == Home::Local).map(|v| self.alloc(v)).collect();
+                            if cs.is_static {
+                                self.statics[*callee] = Some(l.clone());
+                            }
+                            l
+                        }
+                    };
+                    cf.extend(locals);
+                    for v in &cs.vars {
+                        if let Home::SharedView(i) = v.home {
+                            cf.push(self.module_frame[i]);
+                        }
+                    }
+                    debug_assert_eq!(cf.len(), cs.vars.len());
+                    self.classes.push(format!("mem-call:{}{}", cs.scope_tag(), if si > 0 { "-nested" } else { "" }));
+                    let r = self.run_scope(*callee, &cf);
+                    if cs.kind == 2 {
+                        let r = r.unwrap_or(0);
+                        match dst {
+                            Some(d) => self.set_int(frame, d, r),
+                            None => self.line(num_item(r as i64), "function-result".to_string()),
+                        }
+                    }
+                }
+            }
+        }
+        // dump
+        let label = if sc.kind == 0 { "M".to_string() } else { sc.name.trim_end_matches('%').to_string() };
+        for (vi, v) in sc.vars.iter().enumerate() {
+            let mut s = format!("{}.{}=", label, v.name);
+            for f in 0..v.len() {
+                s.push_str(&self.cell(frame, &Tgt { var: vi, flat: f }).printed());
+            }
+            self.line(s, format!("dump:{}", sc.coarse(Tgt { var: vi, flat: 0 })));
+        }
+        sc.ret.as_ref().map(|r| self.opnd(frame, r))
+    }
+}
+
+fn simulate_mem_program(p: &MemProgram) -> (String, Vec<String>, Vec<String>) {
+    let mut sim = MemSim { scopes: &p.scopes, arena: vec![], module_frame: vec![], statics: vec![None; p.scopes.len()], out: String::new(), tags: vec![], classes: vec![] };
+    let frame: Vec<(usize, usize)> = p.scopes[0].vars.iter().map(|v| sim.alloc(v)).collect();
+    sim.module_frame = frame.clone();
+    sim.run_scope(0, &frame);
+    (sim.out, sim.tags, sim.classes)
+}
+
+/// Fixed witnesses (program, expected output by the statement) that run once per tier in addition
+/// to the generated programs.
+fn mem_witnesses() -> Vec<(&'static str, &'static str)> {
+    vec![
+        // POKE into a local array of a SUB while the module owns an array and the SUB a second one
+        (
+            "DEFINT A-Z\nDECLARE SUB Test ()\nDIM G(1 TO 2)\nG(1) = 7\nTest\nPRINT \"G(1) =\"; G(1)\n\nSUB Test\n    DIM A(1 TO 2)\n    DIM B(1 TO 2)\n    DEF SEG = VARSEG(A(1))\n    P = VARPTR(A(1))\n    POKE P, 42\n    POKE P + 1, 1\n    PRINT \"A(1) =\"; A(1)\n    PRINT \"B(1) =\"; B(1)\n    PRINT \"PEEK =\"; PEEK(P); PEEK(P + 1)\nEND SUB\n",
+            "A(1) = 298 \r\nB(1) = 0 \r\nPEEK = 42  1 \r\nG(1) = 7 \r\n",
+        ),
+        // the same through a whole-array parameter and a DIM SHARED array, high byte with the sign bit
+        (
+            "DIM SHARED S(1 TO 2) AS INTEGER\nDIM G(0 TO 1) AS INTEGER\nDIM H(0 TO 1) AS INTEGER\nTest H()\nPRINT G(0); G(1); H(0); H(1); S(1); S(2)\n\nSUB Test (R() AS INTEGER)\n    DIM A(1 TO 2) AS INTEGER\n    DEF SEG = VARSEG(R(1))\n    POKE VARPTR(R(1)) + 1, 128\n    DEF SEG = VARSEG(S(2))\n    POKE VARPTR(S(2)), 255\n    DEF SEG = VARSEG(A(2))\n    POKE VARPTR(A(2)) + 1, 255\n    PRINT A(1); A(2); R(0); R(1); S(1); S(2)\nEND SUB\n",
+            " 0 -256  0 -32768  0  255 \r\n 0  0  0 -32768  0  255 \r\n",
+        ),
+    ]
+}
+
+fn mem_case(sh: &mut Shard, t: &mut Tape) -> Result<(), Violation> {
+    let p = gen_mem_program(t);
+    let (src, rows) = render_mem_program(&p);
+    let (expected, tags, classes) = simulate_mem_program(&p);
+    sh.journal(&src);
+    sh.eval();
+    sh.nontrivial(hash64(&src));
+    sh.class("program-level-memory-model");
+    for c in &classes {
+        sh.class(c);
+    }
+    // the shape the per-block numbering of arrays depends on
+    let module_arrays = p.scopes[0].vars.iter().filter(|v| v.is_array()).count();
+    for sc in &p.scopes[1..] {
+        let own = sc.vars.iter().filter(|v| v.is_array() && !matches!(v.home, Home::SharedView(_))).count();
+        if own > 0 {
+            sh.class(&format!("mem-shape:module-arrays={},procedure-arrays={}", module_arrays.min(3), own.min(3)));
+        }
+    }
+    for (i, sc) in p.scopes.iter().enumerate().skip(1) {
+        let called = p.scopes.iter().any(|c| c.ops.iter().any(|o| matches!(o, MOp::Call { callee, .. } if *callee == i)));
+        if !called {
+            sh.class("mem-shape:procedure-never-called");
+        }
+        let _ = sc;
+    }
+    sh.sample_sparse(41, || json!({"kind": "mem-program", "program": src, "expected_stdout": expected}));
+    run_mem_case(&src, &expected, &tags, &rows)
+}
+
+fn run_mem_case(src: &str, expected: &str, tags: &[String], rows: &[String]) -> Result<(), Violation> {
+    let inputs = json!({"kind":"mem-program","program":src,"expected_stdout":expected,"line_tags":tags,"row_tags":rows});
+    match impl_run::run_src(src, &RunOpts::budget(2_000_000)) {
+        Err(e) => Err(Violation::new(format!("mem-program-rejected:{}", e.class()), "PEEK/POKE memory-model program rejected", inputs).exp_obs("accepted", e.to_json())),
+        Ok(out) => {
+            let got = out.stdout_str();
+            if (out.end == End::Ok && got == expected) || out.end == End::Budget {
+                // straight-line programs never exhaust the budget; if one did it would be inconclusive
+                return Ok(());
+            }
+            // first differing line decides the signature: which kind of access went wrong
+            let exp_lines: Vec<&str> = expected.split("\r\n").collect();
+            let got_lines: Vec<&str> = got.split("\r\n").collect();
+            let mut k = 0;
+            while k < exp_lines.len() && k < got_lines.len() && exp_lines[k] == got_lines[k] {
+                k += 1;
+            }
+            let tag = tags.get(k).cloned().unwrap_or_else(|| "end".to_string());
+            let sig = match &out.end {
+                End::Ok => format!("mem-output:{}", tag),
+                End::Err { name, pos, .. } => {
+                    // the statement that failed (innermost position), not the output line that is missing
+                    let row = pos.first().map(|p| p.0 as usize).unwrap_or(0);
+                    let at = if row >= 1 { rows.get(row - 1).cloned() } else { None };
+                    format!("mem-end:{}:{}", name, at.unwrap_or_else(|| "unknown-row".to_string()))
+                }
+                End::Panic(p) => {
+                    // independent of where the sources are checked out
+                    let s = p.sig();
+                    let s = match s.find("rusty_") {
+                        Some(i) => s[i..].to_string(),
+                        None => s,
+                    };
+                    format!("mem-end:panic@{}", s)
+                }
+                e => format!("mem-end:{}", e.short()),
+            };
+            Err(Violation::new(sig, "PEEK/POKE through VARPTR/VARSEG disagree with the byte-level memory model (16-bit two's-complement words, low byte first; POKE changes exactly the addressed byte)", inputs)
+                .exp_obs(json!({"stdout":expected,"end":"ok","first_differing_line":k + 1,"expected_line":exp_lines.get(k)}), json!({"stdout":got,"end":out.end.to_json(),"observed_line":got_lines.get(k)})))
+        }
+    }
+}
+
 impl Prop for C19 {
     fn id(&self) -> &'static str {
         "C19"
     }
     fn rule(&self) -> &'static str {
-        "Direct calls of i32_to_bytes/bytes_to_i32/unary_not over all 65536 INTEGER values (exhaustive), qb_and/qb_or over all pairs of a boundary/one-hot/complement set plus random pairs, f64_to_bytes/bytes_to_f64 over every power of two, boundary mantissas, subnormals, integers around 2^52..2^65, +-0 and random finite bit patterns, each compared with the machine operation (i16 &,|,!, to_le_bytes, f64::to_le_bytes/from_le_bytes); plus generated programs using AND/OR/NOT on INTEGER variables, PEEK/POKE through VARPTR/VARSEG and CVD(MKD$(x)). Every case is distinct by construction (hash of operands / program text); all are non-trivial (each exercises a primitive on a distinct operand)."
+        "Direct calls of i32_to_bytes/bytes_to_i32/unary_not over all 65536 INTEGER values (exhaustive), qb_and/qb_or over all pairs of a boundary/one-hot/complement set plus random pairs, f64_to_bytes/bytes_to_f64 over every power of two, boundary mantissas, subnormals, integers around 2^52..2^65, +-0 and random finite bit patterns, each compared with the machine operation (i16 &,|,!, to_le_bytes, f64::to_le_bytes/from_le_bytes); plus generated programs using AND/OR/NOT on INTEGER variables, PEEK/POKE through VARPTR/VARSEG and CVD(MKD$(x)); plus generated multi-scope programs checked against a byte-level memory model: 1-3 INTEGER scalars and 1-3 INTEGER arrays (1-4 elements, various lower bounds, some two-dimensional) next to LONG/SINGLE/DOUBLE/STRING scalars and arrays, declared at module level (some DIM SHARED) and inside 0-2 SUBs/FUNCTIONs (some STATIC, called once or twice, one possibly calling the other) with INTEGER parameters by reference/by value and whole-array parameters; PEEK and POKE of the low and the high byte (values 0..255) of chosen scalars, elements, parameters and shared variables with DEF SEG = VARSEG(x) and VARPTR(x) inline or through pointer variables, POKE a, f(PEEK(a)) with f from AND/OR/NOT, byte-wise copies between INTEGERs, interleaved with ordinary assignments, AND/OR/NOT assignments and PRINTs, and a dump of every visible variable and array element at the end of every scope (expected: little-endian two's-complement words, a POKE changes exactly the addressed byte of exactly the addressed variable, STATIC locals persist, others start at zero). Every case is distinct by construction (hash of operands / program text); all are non-trivial (each exercises a primitive on a distinct operand)."
     }
     fn assumptions(&self) -> Vec<&'static str> {
         vec![
             "qb_and/qb_or are only exercised with 16-bit operands (their only callers cast to INTEGER first)",
             "NaN and infinities are outside the statement (finite doubles only)",
             "CVD(-0.0 encoding) may return +0.0 or -0.0 (they compare equal in BASIC); the bytes MKD$ produces must still be the IEEE encoding",
+            "memory-model programs: addresses and segments are never predicted, they are always VARPTR/VARSEG of the addressed INTEGER itself, taken after the last declaration of the scope; PEEK/POKE only address INTEGER scalars and INTEGER array elements (the statement defines nothing else); no variable is reachable under two names at once (shared variables are never passed as arguments, no variable is passed twice), so by-reference versus copy-in/copy-out is not observable; DEF SEG = 0 and absolute addresses are never generated",
         ]
     }
     fn run(&self, sh: &mut Shard) {
@@ -325,6 +1349,27 @@ impl Prop for C19 {
             let mut t = Tape::new(tape);
             program_case(sh, &mut t)
         });
+        // program level, byte-level memory model across scopes: fixed witnesses, then generated programs
+        for (i, (src, expected)) in mem_witnesses().into_iter().enumerate() {
+            if !sh.mine(i as u64) {
+                continue;
+            }
+            sh.journal(src);
+            sh.eval();
+            sh.nontrivial(hash64(src));
+            sh.class("program-level-memory-model-witness");
+            let tags = vec![format!("witness-{}", i + 1); expected.matches('\n').count()];
+            let rows = vec![format!("witness-{}", i + 1); src.matches('\n').count()];
+            let r = run_mem_case(src, expected, &tags, &rows);
+            if !sh.report(r) {
+                return;
+            }
+        }
+        let mems = sh.share(sh.tier.pick(800, 24_000));
+        sh.search(4, mems, 500, 900, |sh, tape| {
+            let mut t = Tape::new(tape);
+            mem_case(sh, &mut t)
+        });
     }
     fn replay(&self, _sh: &mut Shard, inputs: &Value) -> Result<(), Violation> {
         match inputs["kind"].as_str().unwrap_or("") {
@@ -333,6 +1378,10 @@ impl Prop for C19 {
             "f64" => {
                 let bits = u64::from_str_radix(inputs["bits"].as_str().unwrap_or("0"), 16).unwrap_or(0);
                 check_f64(f64::from_bits(bits))
+            }
+            "mem-program" => {
+                let strs = |key: &str| -> Vec<String> { inputs[key].as_array().map(|a| a.iter().map(|x| x.as_str().unwrap_or("").to_string()).collect()).unwrap_or_default() };
+                run_mem_case(inputs["program"].as_str().unwrap_or(""), inputs["expected_stdout"].as_str().unwrap_or(""), &strs("line_tags"), &strs("row_tags"))
             }
             "program" => run_program_case(inputs["program"].as_str().unwrap_or(""), inputs["expected_stdout"].as_str().unwrap_or("")),
             k => panic!("unknown replay kind {}", k),
